@@ -186,6 +186,9 @@ func zvC15One(r *vh.Run, c zvC15Case) {
 	fam := fmt.Sprint(c.Fam)
 	base := zvPattern(c.Pat, w)
 	other := base.flip(c.Pos)
+	if c.Pos2 > 0 {
+		other = other.flip(c.Pos2) // a second difference further right
+	}
 	abits, bbits := base.masked(c.LenA), other.masked(c.LenB)
 	a := NewPfx(abits.ip(), uint8(c.LenA))
 	b := NewPfx(bbits.ip(), uint8(c.LenB))
@@ -308,7 +311,7 @@ func zvC15Single(r *vh.Run, famN, pat, l, flip int) {
 func TestVerifC15(t *testing.T) {
 	r := vh.Start(t, "C15")
 	defer r.Finish()
-	r.Rule("every (len_a,len_b) pair x 5 base patterns x (identical | one bit flipped at each position 1..W), IPv4 (W=32) and IPv6 (W=128); " +
+	r.Rule("every (len_a,len_b) pair x 5 base patterns x (identical | one bit flipped at each position 1..W | that bit and a second one further right, at W/2+1 or W), IPv4 (W=32) and IPv6 (W=128); " +
 		"plus address ordering for every pair of addresses differing in two bit positions (both argument orders); plus every (pattern,len,flip) for the single-prefix operations and boundary addresses; non-trivial = the flipped bit lies inside at least one of the two prefixes")
 	r.Require("contains_true", "contains_false_longer", "equal_true", "supernet_checked", "compare_nonzero", "compare_halves_opposed", "valid_true", "valid_false")
 	if r.IsReplay() {
@@ -341,6 +344,13 @@ func TestVerifC15(t *testing.T) {
 					for pos := 0; pos <= w; pos++ {
 						c := zvC15Case{Fam: fam, Pat: pat, LenA: la, LenB: lb, Pos: pos}
 						zvC15One(r, c)
+						// a second differing bit to the right of the first: just across the 64-bit boundary, and the last bit
+						for _, p2 := range []int{w/2 + 1, w} {
+							if pos > 0 && p2 > pos {
+								c.Pos2 = p2
+								zvC15One(r, c)
+							}
+						}
 					}
 				}
 			}
